@@ -11,6 +11,7 @@ import (
 	"io"
 	"net/http"
 	"os"
+	"sort"
 	"strings"
 
 	sebufhttp "github.com/SebastienMelki/sebuf/http"
@@ -482,6 +483,52 @@ func c08GoHelpers(j *Job, u *JobUnit) error {
 			}
 			for _, h := range svc.CallHelpers {
 				try("call", h)
+			}
+			// option precedence and isolation: for every declared header name (as spelled) and three undeclared spellings, the
+			// generic options in every combination of client default x per-call value, and a plain call after a per-call one
+			names := []string{"X-Custom-Hdr", "x-lower-custom", "X-ALLCAPS-ID"}
+			for _, hd := range append(append([]JobHeader{}, m.SvcHeaders...), m.MethHeaders...) {
+				names = append(names, hd.Name)
+			}
+			seenName := map[string]bool{}
+			for _, name := range names {
+				if seenName[name] {
+					continue
+				}
+				seenName[name] = true
+				for _, mode := range []string{"default_only", "call_only", "both", "both_then_plain"} {
+					rec := &recRT{}
+					co, ko := ClientOpts{}, CallOpts{}
+					if mode != "call_only" {
+						co.DefaultHeaders = []KV{{name, "dv"}}
+					}
+					if mode != "default_only" {
+						ko.Headers = []KV{{name, "cv"}}
+					}
+					want := "cv"
+					if mode == "default_only" || mode == "both_then_plain" {
+						want = "dv"
+					}
+					var pan any
+					func() {
+						defer func() { pan = recover() }()
+						cl := svc.NewClient("http://verif.test", &http.Client{Transport: rec}, co)
+						cl.Call(context.Background(), m.Name, req, ko)
+						if mode == "both_then_plain" {
+							cl.Call(context.Background(), m.Name, req, CallOpts{})
+						}
+					}()
+					var got []string
+					if rec.last != nil {
+						for k, vs := range rec.last.Header {
+							if strings.EqualFold(k, name) {
+								got = append(got, vs...)
+							}
+						}
+					}
+					sort.Strings(got)
+					Emit(map[string]any{"k": "goprecedence", "unit": u.Name, "cell": u.Cell, "svc": js.Name, "rpc": m.Name, "header": name, "mode": mode, "got": got, "want": want, "panic": fmt.Sprint(pan)})
+				}
 			}
 		}
 	}
